@@ -60,7 +60,7 @@ def decoder_case(name, cfg, order, api='stream', finish=True, cb='none', trace=F
     b += steps
     b.append('release %d' % sid)
     c = corr.mk(name, b)
-    c.meta = {'cfg': cfg, 'order': list(order), 'api': api, 'finish': finish, 'cb': cb, 'sid': sid}
+    c.meta = {'cfg': cfg, 'order': list(order), 'api': api, 'finish': finish, 'cb': cb, 'sid': sid, 'trace': trace}
     return c
 
 def encoder_case(name, cfg, slots='own', sid=0, role=1, esis=None):
